@@ -76,6 +76,18 @@ def main():
         "not_applicable": na,
         "notes": "Every check: ./check <id> quick|thorough, honours VERIF_SEED; exit 0 held, 1 VIOLATION, 2 infrastructure. Known findings: known_findings.json.",
     }
+    # aggregate known findings (generated; the per-property files are the source)
+    agg = {"_generated_from": "known_findings/*.json by harness/mkmanifest.py", "findings": [], "fixed": []}
+    kdir = os.path.join(VERIF, "known_findings")
+    for fn in sorted(os.listdir(kdir)) if os.path.isdir(kdir) else []:
+        if fn.endswith(".json"):
+            d = json.load(open(os.path.join(kdir, fn)))
+            for x in d.get("findings", []):
+                agg["findings"].append(dict(x, property=fn[:-5]))
+            agg["fixed"] += d.get("fixed", [])
+    with open(os.path.join(VERIF, "known_findings.json"), "w") as f:
+        json.dump(agg, f, indent=1)
+        f.write("\n")
     with open(os.path.join(VERIF, "MANIFEST.json"), "w") as f:
         json.dump(man, f, indent=1)
         f.write("\n")
